@@ -64,6 +64,8 @@ CallReasons(c, F, exp) ==
       THEN "two reported piles of one location overlap or abut" ELSE "",
     IF \E i \in 1..Len(P) : Match(i) = {}
       THEN "a reported pile's interval is not the hull (= union) of a component of the added features" ELSE "",
+    IF \E i \in 1..Len(P) : \E x \in Match(i) : ~Covered(x)
+      THEN "a reported pile's interval is not the union of the intervals of its component" ELSE "",
     IF \E i \in 1..Len(P) : \E x \in Match(i) :
          ~(Want(x) \subseteq Range(P[i].im) /\ Range(P[i].im) \subseteq Ids(x.members))
       THEN "a reported pile's members are not the features linked by chains of overlapping or abutting features" ELSE "",
